@@ -263,6 +263,13 @@ def check_withdraw(ctx, model):
             ctx.ob("C08-B4", "%s|refund-and-remove-together" % WITHDRAW, together and not (skip & okb),
                    "refund += amount (bb%d) and UNBOND.remove (bb%d): remove only after add: %s; add without remove reaching success: %s"
                    % (ab, rb, together, bool(skip & okb)), v.where(rb))
+    # the record removed is the record paid: its time key is the key the range iteration yielded for it (element .0 of the
+    # (key, record) pair), not something rebuilt from the record's fields in another unit
+    for rb, rt in removes:
+        ko = v.origins_of_operand(rt["args"][2], proj=("2",), at=v.at_term(rb))
+        ok_key = bool(ko) and all(o.kind in ("load", "call") and o.proj and o.proj[-1] == "0" and "timestamp" not in o.proj for o in ko)
+        ctx.ob("C08-B4", "%s|removes-under-the-iterated-key" % WITHDRAW, ok_key,
+               "UNBOND.remove time key from %s (must be the key yielded by the range iteration)" % sorted(map(repr, ko)), v.where(rb))
     # maturity
     ts = param_idx(v, "cosmwasm_std::Timestamp")
     x = lambda os_: call_shape(v, os_, r"^cosmwasm_std::Timestamp::minus_nanos$",
@@ -306,11 +313,29 @@ def check_withdraw(ctx, model):
 def run(ctx):
     model = ctx.model()
     check_weight_helpers_pass_through(ctx, model)
+    check_global_assets_only_via_helpers(ctx, model)
     check_unbonding_cursor(ctx, model)
     check_validate_funds(ctx, model)
     check_bond(ctx, model)
     check_unbond(ctx, model)
     check_withdraw(ctx, model)
+
+
+def check_global_assets_only_via_helpers(ctx, model):
+    """B2 (global list): GLOBAL.bonded_assets is changed only by assigning the result of aggregate_assets / deduct_assets of
+    the declared asset; no in-place Vec edit (retain / remove / clear / push ...) touches it -- e.g. dropping a denom's entry
+    because ONE user's bond reached zero loses the other users' bonded amount of that denom."""
+    for p in (BOND, UNBOND, WITHDRAW):
+        v = ctx.view(p, "C08-B2")
+        if v is None:
+            continue
+        bad = []
+        for b, t in v.calls_to(r"^std::vec::Vec::(retain|retain_mut|remove|swap_remove|clear|truncate|pop|push|insert|drain|dedup\w*)$"):
+            os_ = v.origins_of_operand(t["args"][0], at=v.at_term(b), taint=True)
+            if any(o.proj and "bonded_assets" in o.proj for o in os_):
+                bad.append("%s at line %s" % (mname(t).split("::")[-1], t.get("ln")))
+        ctx.ob("C08-B2", "%s|global-asset-list-only-via-helpers" % p, not bad,
+               "in-place edits of GLOBAL.bonded_assets: %s" % (bad or "none"), v.where())
 
 
 def check_weight_helpers_pass_through(ctx, model):
